@@ -251,8 +251,35 @@ func (tr *fnTrans) doCall(ins ssa.Instruction, cc *ssa.CallCommon, asVal ssa.Val
 		tr.oblige("nil", fmt.Sprintf("nil.call#%d", n), not(app("=", args[0].S, "nilref")), ins.Pos(), nil, "call of nil function value")
 	}
 	if sp == nil {
-		tr.unsupported("call of %s has no contract: everything is havocked", name)
-		tr.havocAll(tr.cur)
+		inferred := false
+		if callee := cc.StaticCallee(); callee != nil && !cc.IsInvoke() {
+			if mods, all := tr.inferredMods(callee, nil); !all {
+				// a module function without a contract: its results are unknown, its writes are those of its body
+				inferred = true
+				tr.unsupported("call of %s has no contract: results unknown, write set inferred from its body", name)
+				pre := tr.cur.clone()
+				var names []string
+				for m := range mods {
+					names = append(names, m)
+				}
+				sort.Strings(names)
+				for _, cn := range names {
+					if _, ok := tr.compSort[cn]; !ok {
+						if ks, ok := tr.known[cn]; ok {
+							tr.regComp(cn, ks)
+						} else {
+							continue
+						}
+					}
+					tr.havoc(tr.cur, cn)
+				}
+				tr.recordsAppendOnly(pre, "")
+			}
+		}
+		if !inferred {
+			tr.unsupported("call of %s has no contract: everything is havocked", name)
+			tr.havocAll(tr.cur)
+		}
 		tr.bumpClock()
 		var res []Term
 		for i := 0; i < sig.Results().Len(); i++ {
